@@ -23,6 +23,7 @@
 #include <unistd.h>
 #include <signal.h>
 #include <sys/wait.h>
+#include <sys/mman.h>
 #include "mir.h"
 #include "mir-gen.h"
 
@@ -34,9 +35,19 @@ extern unsigned char c05_img[256 + NSTK], c05_ret[80], c06_in[256 + NSTK], c06_o
 extern void c05_probe (void);
 extern void c06_tramp (void *fn);
 
-unsigned char c05_vals[VALS_SIZE] __attribute__ ((aligned (64)));
-unsigned char c05_outs[OUTS_SIZE] __attribute__ ((aligned (64)));
-unsigned char c05_seen[OUTS_SIZE] __attribute__ ((aligned (64)));
+/* fixed addresses so that pointer-valued arguments (rblk) are predictable by the case generator */
+unsigned char *c05_vals, *c05_outs, *c05_seen;
+#define VALS_ADDR 0x20000000ul
+#define OUTS_ADDR 0x20010000ul
+#define SEEN_ADDR 0x20020000ul
+static unsigned char *fixed_map (unsigned long addr) {
+  void *p = mmap ((void *) addr, 0x4000, PROT_READ | PROT_WRITE, MAP_PRIVATE | MAP_ANONYMOUS | MAP_FIXED_NOREPLACE, -1, 0);
+  if (p != (void *) addr) {
+    fprintf (stderr, "cannot map fixed buffer at %lx\n", addr);
+    exit (4);
+  }
+  return p;
+}
 
 struct c05_gen_entry {
   const char *name;
@@ -109,12 +120,12 @@ static void run_case (char *id, char *mode, char *engine, char *target, char *mi
   volatile char pad[4096]; /* make sure NSTK bytes above any callee's rsp are mapped stack */
   pad[0] = pad[4095] = 0;
   cur_id = id;
-  memset (c05_vals, 0, sizeof (c05_vals));
-  memset (c05_outs, 0xa5, sizeof (c05_outs));
-  memset (c05_seen, 0xa5, sizeof (c05_seen));
+  memset (c05_vals, 0, VALS_SIZE);
+  memset (c05_outs, 0xa5, OUTS_SIZE);
+  memset (c05_seen, 0xa5, OUTS_SIZE);
   memset (c05_img, 0, sizeof (c05_img));
   memset (c06_out, 0, sizeof (c06_out));
-  unhex (valshex, c05_vals, sizeof (c05_vals));
+  unhex (valshex, c05_vals, VALS_SIZE);
   if (strcmp (mode, "gcc") == 0) {
     void (*g) (void *) = gen_lookup (target);
     if (g == NULL) {
@@ -200,6 +211,7 @@ static void run_case (char *id, char *mode, char *engine, char *target, char *mi
       if (strncmp (target, "tramp", 5) == 0 && target[5] != 0) reps = atoi (target + 5);
       for (int r = 0; r < reps; r++) { /* lazy: the first call generates, the second runs directly */
         memset (c06_in, 0, sizeof (c06_in));
+        memset (c05_img, 0, sizeof (c05_img));
         unhex (iohex, c06_in, sizeof (c06_in));
         c06_tramp (addr);
       }
@@ -208,6 +220,8 @@ static void run_case (char *id, char *mode, char *engine, char *target, char *mi
     puthex (stdout, c06_out, sizeof (c06_out));
     printf (" outs=");
     puthex (stdout, c05_outs, 2048);
+    printf (" pimg=");
+    puthex (stdout, c05_img, 256);
     printf ("\n");
   }
   fflush (stdout);
@@ -217,6 +231,9 @@ static void run_case (char *id, char *mode, char *engine, char *target, char *mi
 int main (int argc, char **argv) {
   int nofork = argc > 1 && strcmp (argv[1], "--nofork") == 0;
   setvbuf (stdout, NULL, _IOFBF, 1 << 16);
+  c05_vals = fixed_map (VALS_ADDR);
+  c05_outs = fixed_map (OUTS_ADDR);
+  c05_seen = fixed_map (SEEN_ADDR);
   while (getline (&line, &line_cap, stdin) > 0) {
     char *f[7];
     int nf = 0;
